@@ -80,6 +80,31 @@ theorem umeyama_refuses_degenerate (x y : List (V3 Rat))
   · simp [refuses_of_axis_fst h]
   · simp [refuses_of_axis_snd h]
 
+/-- **noise-free data reproduce the generating transformation**: if `y_i = c₀R₀x_i + t₀` exactly
+(`R₀` proper, `c₀ > 0`, `c₀ = 1` when scale estimation is off) and the points are not all
+collinear (three non-collinear points, i.e. rank ≥ 2 — planar data included), every certified
+output *is* `(R₀, t₀, c₀)` -/
+theorem umeyama_noise_free (ws : Bool) (x : List (V3 Rat)) (R0 R : M3 Rat) (t0 t : V3 Rat) (c0 c : Rat)
+    (hR0 : IsRot R0) (hc0 : 0 < c0) (hws : ws = false → c0 = 1)
+    (h : umeCert 0 ws x (x.map (simApply R0 t0 c0)) R t c = true)
+    (p0 p1 p2 : V3 Rat) (h0 : p0 ∈ x) (h1 : p1 ∈ x) (h2 : p2 ∈ x)
+    (hnc : V3.cross (V3.sub p1 p0) (V3.sub p2 p0) ≠ V3.zero) :
+    R = R0 ∧ t = t0 ∧ c = c0 :=
+  noise_free ws x R0 R t0 t c0 c hR0 hc0 hws h p0 p1 p2 h0 h1 h2 hnc
+
+/-- **equivariance** (`_partial`): moving / scaling the inputs by similarities `A = (R_A,t_A,s_A)`
+on `x` and `B = (R_B,t_B,s_B)` on `y` and composing the transformation to `B∘g∘A⁻¹` multiplies
+the residual by `s_B²`, and the residual does not depend on the order of the point pairs — so the
+*sets of minimisers* of the original and of the moved/scaled/permuted problem correspond under
+exactly that composition. Missing for the full clause: uniqueness of the minimiser for noisy
+data (proved only in the noise-free case, `umeyama_noise_free`). -/
+theorem umeyama_equivariant_partial {K : Type} [Field K] (x y : List (V3 K)) (RA RB R : M3 K) (tA tB t : V3 K)
+    (sA sB c : K) (hA : IsOrtho RA) (hB : IsOrtho RB) (hsA : sA ≠ 0) :
+    resid (x.map (simApply RA tA sA)) (y.map (simApply RB tB sB))
+        (conjRot RA RB R) (conjTrans RA RB R tA tB t sA sB c) (conjScale sA sB c) = sB ^ 2 * resid x y R t c ∧
+    ∀ x' y' : List (V3 K), (x.zip y).Perm (x'.zip y') → resid x y R t c = resid x' y' R t c :=
+  ⟨resid_equivariant x y RA RB R tA tB t sA sB c hA hB hsA, fun x' y' h => resid_perm x y x' y' h R t c⟩
+
 /-! ### non-vacuity: concrete instances on which the hypotheses hold -/
 
 def exX : List (V3 Rat) := [⟨0, 0, 0⟩, ⟨1, 0, 0⟩, ⟨0, 2, 0⟩, ⟨0, 0, 3⟩, ⟨1, 1, 1⟩]
@@ -104,5 +129,7 @@ example : umeCert 0 true exO [⟨3, 0, 0⟩, ⟨-3, 0, 0⟩, ⟨0, 2, 0⟩, ⟨0
 /-- degenerate inputs are refused, generic ones are not -/
 example : umeRefuses [⟨1, 0, 0⟩, ⟨2, 0, 0⟩, ⟨5, 0, 0⟩] [⟨1, 2, 3⟩, ⟨0, 1, 0⟩, ⟨2, 2, 1⟩] = true := by decide +kernel
 example : umeRefuses exX exY = false := by decide +kernel
+/-- `exX` contains three non-collinear points (hypothesis of `umeyama_noise_free`) -/
+example : V3.cross (V3.sub (⟨1, 0, 0⟩ : V3 Rat) ⟨0, 0, 0⟩) (V3.sub ⟨0, 2, 0⟩ ⟨0, 0, 0⟩) ≠ V3.zero := by decide +kernel
 
 end Evo.C03
